@@ -49,7 +49,7 @@ structure MergeSt where
 
 mutual
 /-- `import_type` -/
-def importType (src : Prog) : Nat → Nat → MergeSt → Option (MergeSt × Nat)
+def importType (fast : Bool) (src : Prog) : Nat → Nat → MergeSt → Option (MergeSt × Nat)
   | 0, _, _ => none
   | fuel + 1, old, st =>
     match st.tyMap.get old with
@@ -58,48 +58,52 @@ def importType (src : Prog) : Nat → Nat → MergeSt → Option (MergeSt × Nat
       match src.types[old]? with
       | none => none
       | some τ =>
-        match importTyValue src fuel τ st with
+        -- the seeded C08-3 "fast path" (NOT in the code; `fast := true` only in the witness): a
+        -- structurally equal entry at the same index is mapped to itself, children un-imported
+        if fast && st.prog.types[old]? == some τ then some ({ st with tyMap := (old, old) :: st.tyMap }, old)
+        else
+        match importTyValue fast src fuel τ st with
         | none => none
         | some (st1, τ') =>
           let r := st1.prog.registerType τ'
           some ({ st1 with prog := r.1, tyMap := (old, r.2) :: st1.tyMap }, r.2)
 /-- `import_type_value` -/
-def importTyValue (src : Prog) : Nat → Ty → MergeSt → Option (MergeSt × Ty)
+def importTyValue (fast : Bool) (src : Prog) : Nat → Ty → MergeSt → Option (MergeSt × Ty)
   | 0, _, _ => none
   | fuel + 1, τ, st =>
     match τ with
-    | .tuple id => (importTuple src fuel id st).map (fun r => (r.1, Ty.tuple r.2))
+    | .tuple id => (importTuple fast src fuel id st).map (fun r => (r.1, Ty.tuple r.2))
     | .part n fs =>
-      (importTypes src fuel (fs.map (·.2)) st).map (fun r => (r.1, Ty.part n (List.zipWith (fun p t => (p.1, t)) fs r.2)))
-    | .union ids => (importTypes src fuel ids st).map (fun r => (r.1, Ty.union r.2))
+      (importTypes fast src fuel (fs.map (·.2)) st).map (fun r => (r.1, Ty.part n (List.zipWith (fun p t => (p.1, t)) fs r.2)))
+    | .union ids => (importTypes fast src fuel ids st).map (fun r => (r.1, Ty.union r.2))
     | .callable p r v =>
-      match importTypes src fuel [p, r, v] st with
+      match importTypes fast src fuel [p, r, v] st with
       | some (st1, [p', r', v']) => some (st1, .callable p' r' v')
       | _ => none
     | .process s r =>
       match (match s with
              | none => some (st, none)
-             | some t => (importType src fuel t st).map (fun (x : MergeSt × Nat) => (x.1, some x.2))) with
+             | some t => (importType fast src fuel t st).map (fun (x : MergeSt × Nat) => (x.1, some x.2))) with
       | none => none
       | some (st1, s') =>
         match (match r with
                | none => some (st1, none)
-               | some t => (importType src fuel t st1).map (fun (x : MergeSt × Nat) => (x.1, some x.2))) with
+               | some t => (importType fast src fuel t st1).map (fun (x : MergeSt × Nat) => (x.1, some x.2))) with
         | none => none
         | some (st2, r') => some (st2, .process s' r')
     | other => some (st, other)
-def importTypes (src : Prog) : Nat → List Nat → MergeSt → Option (MergeSt × List Nat)
+def importTypes (fast : Bool) (src : Prog) : Nat → List Nat → MergeSt → Option (MergeSt × List Nat)
   | 0, _, _ => none
   | _ + 1, [], st => some (st, [])
   | fuel + 1, t :: ts, st =>
-    match importType src fuel t st with
+    match importType fast src fuel t st with
     | none => none
     | some (st1, t') =>
-      match importTypes src fuel ts st1 with
+      match importTypes fast src fuel ts st1 with
       | none => none
       | some (st2, ts') => some (st2, t' :: ts')
 /-- `import_tuple` -/
-def importTuple (src : Prog) : Nat → Nat → MergeSt → Option (MergeSt × Nat)
+def importTuple (fast : Bool) (src : Prog) : Nat → Nat → MergeSt → Option (MergeSt × Nat)
   | 0, _, _ => none
   | fuel + 1, old, st =>
     match st.tuMap.get old with
@@ -108,7 +112,9 @@ def importTuple (src : Prog) : Nat → Nat → MergeSt → Option (MergeSt × Na
       match src.tuples[old]? with
       | none => none
       | some T =>
-        match importTypes src fuel (T.fields.map (·.2)) st with
+        if fast && st.prog.tuples[old]? == some T then some ({ st with tuMap := (old, old) :: st.tuMap }, old)
+        else
+        match importTypes fast src fuel (T.fields.map (·.2)) st with
         | none => none
         | some (st1, ts') =>
           let r := st1.prog.registerTuple { name := T.name, fields := List.zipWith (fun p t => (p.1, t)) T.fields ts' }
@@ -120,19 +126,19 @@ def importFuel (src : Prog) : Nat :=
     2 * (src.types.foldl (fun n τ => n + (match τ with | .part _ fs => fs.length | .union ids => ids.length | _ => 3)) 0 +
          src.tuples.foldl (fun n T => n + T.fields.length) 0)
 
-def importAllTypes (src : Prog) : List Nat → MergeSt → Option MergeSt
+def importAllTypes (fast : Bool) (src : Prog) : List Nat → MergeSt → Option MergeSt
   | [], st => some st
   | t :: ts, st =>
-    match importType src (importFuel src) t st with
+    match importType fast src (importFuel src) t st with
     | none => none
-    | some (st1, _) => importAllTypes src ts st1
+    | some (st1, _) => importAllTypes fast src ts st1
 
-def importAllTuples (src : Prog) : List Nat → MergeSt → Option MergeSt
+def importAllTuples (fast : Bool) (src : Prog) : List Nat → MergeSt → Option MergeSt
   | [], st => some st
   | t :: ts, st =>
-    match importTuple src (importFuel src) t st with
+    match importTuple fast src (importFuel src) t st with
     | none => none
-    | some (st1, _) => importAllTuples src ts st1
+    | some (st1, _) => importAllTuples fast src ts st1
 
 def getOr (m : AMap) (i : Nat) : Nat := (m.get i).getD i
 
@@ -177,12 +183,12 @@ structure MergeOut where
   ren : Ren
 
 /-- `Environment::merge_bytecode(src)` into the environment's program `env`. -/
-def mergeBytecode (env src : Prog) (entry : Nat) : Option MergeOut :=
+def mergeBytecodeWith (fast : Bool) (env src : Prog) (entry : Nat) : Option MergeOut :=
   let (p1, cm) := mergeConsts src.consts.toList 0 env []
-  match importAllTypes src (List.range src.types.size) { prog := p1 } with
+  match importAllTypes fast src (List.range src.types.size) { prog := p1 } with
   | none => none
   | some st1 =>
-    match importAllTuples src (List.range src.tuples.size) st1 with
+    match importAllTuples fast src (List.range src.tuples.size) st1 with
     | none => none
     | some st2 =>
       let (p3, bm) := mergeBuiltins st2.tyMap src.builtins.toList 0 st2.prog []
@@ -193,5 +199,7 @@ def mergeBytecode (env src : Prog) (entry : Nat) : Option MergeOut :=
         some { prog := { p4 with resources := (resourceNames p4.types.toList).toArray },
                entry := e',
                ren := { const := cm, fn := fm, tuple := st2.tuMap, type := st2.tyMap, builtin := bm } }
+
+def mergeBytecode (env src : Prog) (entry : Nat) : Option MergeOut := mergeBytecodeWith false env src entry
 
 end QM.Packaging
